@@ -54,6 +54,8 @@ type Sched struct {
 	all   []*Task
 	Grace time.Duration // how long to wait for a released task to park again before treating it as lock-blocked
 	Trace []string
+	// AfterOps: tasks also park after each operation came back from the backend (before the layer above sees the result)
+	AfterOps bool
 }
 
 // Task is one scheduled goroutine.
@@ -76,6 +78,12 @@ type Task struct {
 func NewSched(r *Rec) *Sched {
 	s := &Sched{tasks: map[int64]*Task{}, Grace: 3 * time.Second}
 	r.Gate = s.gate
+	r.GateAfter = func(o *Op) {
+		if !s.AfterOps || o.Kind == "rollback" {
+			return
+		}
+		s.gate(&Op{Seq: o.Seq, G: o.G, Kind: "after-" + o.Kind, Key: o.Key, Tx: o.Tx})
+	}
 	r.TaskOf = func(g int64) string {
 		s.mu.Lock()
 		defer s.mu.Unlock()
